@@ -127,7 +127,7 @@ def step1 (s : State) : List String → State × String
       | none => (s, "rejected")
     | none => (s, "bad-op")
   | ["dump"] =>
-    (s, " ".intercalate ((List.range s.n).map fun q => stCode (s.procs q).st) ++ " | " ++ showList (s.net.map pkStr))
+    (s, (if s.n = 0 then "-" else " ".intercalate ((List.range s.n).map fun q => stCode (s.procs q).st)) ++ " | " ++ showList (s.net.map pkStr))
   | ["explore"] =>
     if quiescent s then
       let (r, memo) := (ctlRuns s).run {}
